@@ -22,15 +22,23 @@ val compOpp : comparison -> comparison
 
 val add : nat -> nat -> nat
 
+val mul : nat -> nat -> nat
+
 val sub : nat -> nat -> nat
 
 module Nat :
  sig
+  val sub : nat -> nat -> nat
+
   val eqb : nat -> nat -> bool
 
   val leb : nat -> nat -> bool
 
   val ltb : nat -> nat -> bool
+
+  val divmod : nat -> nat -> nat -> nat -> nat * nat
+
+  val modulo : nat -> nat -> nat
 
   val div2 : nat -> nat
  end
@@ -191,6 +199,8 @@ type 'f numOps = { n0 : 'f; n1 : 'f; nadd : ('f -> 'f -> 'f);
 
 val nleb : 'a1 numOps -> 'a1 -> 'a1 -> bool
 
+val ngtb : 'a1 numOps -> 'a1 -> 'a1 -> bool
+
 val nmax : 'a1 numOps -> 'a1 -> 'a1 -> 'a1
 
 val nmin : 'a1 numOps -> 'a1 -> 'a1 -> 'a1
@@ -202,6 +212,8 @@ val n2 : 'a1 numOps -> 'a1
 val n4 : 'a1 numOps -> 'a1
 
 val nofnat : 'a1 numOps -> nat -> 'a1
+
+val nsum : 'a1 numOps -> 'a1 list -> 'a1
 
 val qltb : q -> q -> bool
 
@@ -787,6 +799,8 @@ val all_some : 'a1 option list -> 'a1 list option
 
 val asQs : val0 -> q list option
 
+val asQss : val0 -> q list list option
+
 val asNs : val0 -> nat list option
 
 val asBs : val0 -> bool list option
@@ -863,6 +877,49 @@ val cumsum : 'a1 numOps -> 'a1 -> 'a1 list -> 'a1 list
 val poisson_cumsums : 'a1 numOps -> 'a1 -> 'a1 list -> 'a1 list
 
 val poisson_spikes : 'a1 numOps -> 'a1 -> 'a1 -> 'a1 list -> 'a1 list
+
+val mrow : 'a1 list list -> nat -> 'a1 list
+
+val mget : 'a1 numOps -> 'a1 list list -> nat -> nat -> 'a1
+
+val triu_row : 'a1 numOps -> 'a1 list list -> nat -> nat -> 'a1
+
+val triu_sum : 'a1 numOps -> 'a1 list list -> 'a1
+
+val permutate_matrix :
+  'a1 numOps -> 'a1 list list -> nat list -> 'a1 list list
+
+val swap_adj : nat list -> nat -> nat list
+
+val row_max : 'a1 numOps -> 'a1 list -> 'a1 -> 'a1
+
+val mat_max : 'a1 numOps -> 'a1 list list -> 'a1
+
+type 'f sa = { sa_p : nat list; sa_A : 'f; sa_k : nat }
+
+val sa_step :
+  'a1 numOps -> (nat -> nat) -> ('a1 -> 'a1 -> nat -> bool) -> 'a1 list list
+  -> nat -> 'a1 -> 'a1 sa -> 'a1 sa * bool
+
+val sa_equil :
+  'a1 numOps -> (nat -> nat) -> ('a1 -> 'a1 -> nat -> bool) -> 'a1 list list
+  -> nat -> 'a1 -> nat -> nat -> nat -> 'a1 sa -> ('a1 sa * nat) * nat
+
+val sa_cool :
+  'a1 numOps -> (nat -> nat) -> ('a1 -> 'a1 -> nat -> bool) -> 'a1 list list
+  -> nat -> 'a1 -> 'a1 -> nat -> 'a1 -> nat -> 'a1 sa -> ('a1 sa * nat) option
+
+val sim_ann :
+  'a1 numOps -> (nat -> nat) -> ('a1 -> 'a1 -> nat -> bool) -> 'a1 list list
+  -> 'a1 -> 'a1 -> 'a1 -> nat -> ((nat list * 'a1) * nat) option
+
+val sorting_from_matrix :
+  'a1 numOps -> (nat -> nat) -> ('a1 -> 'a1 -> nat -> bool) -> 'a1 list list
+  -> nat -> ((nat list * 'a1) * nat) option
+
+val metro_script : 'a1 -> 'a1 -> nat -> bool
+
+val cyc : nat list -> nat -> nat
 
 val o : q numOps
 
